@@ -117,10 +117,14 @@ func c07Release(p *chk.Prog, r *chk.Report) {
 		x.Fail("SetBalancer:release-test", f.Pos(), "no `if releasedIPs(prevIPs, c.ips.IPs(name))` test on the addresses held before convergeBalancer")
 		return
 	}
-	condSite := g.FactSite(es[0].B.Nodes[len(es[0].B.Nodes)-1].(ast.Expr))
+	condExpr := es[0].B.Nodes[len(es[0].B.Nodes)-1].(ast.Expr)
+	condSite := g.FactSite(condExpr)
+	// the release test may be one conjunct of the condition
 	var prevObj types.Object
-	if b := f.MatchNew("releasedIPs(PREV, _)", es[0].B.Nodes[len(es[0].B.Nodes)-1].(ast.Expr)); b != nil {
-		prevObj = f.ObjOf(b["PREV"])
+	for _, c := range f.CallsIn(condExpr, "controller.releasedIPs") {
+		if len(c.Args) == 2 && prev(c.Args[0]) {
+			prevObj = f.ObjOf(c.Args[0])
+		}
 	}
 	// prev defined before converge, and the test after converge
 	isPrevDef := func(n ast.Node) bool {
@@ -217,7 +221,7 @@ func c07Release(p *chk.Prog, r *chk.Report) {
 				})
 				okk = okk && len(decl) == 1 && len(es) > 0 && nTrue == 1
 			}
-			ok2, _ := rg.LoopForall(outer[0], func(chk.Fact) bool { return false })
+			ok2, _ := rg.LoopForall(outer[0], chk.GNever())
 			_ = ok2
 			// no break out of the outer loop
 			_, _, done := rg.RangeBlocks(outer[0])
@@ -360,7 +364,7 @@ func c07Scan(p *chk.Prog, r *chk.Report) {
 				okk, why = false, "the loop over candidate pools can be left early"
 			}
 			search := fb.ContainsPat("RECV.getFreeIPsFromPool(P, ETC)", chk.H("P", rangeVal(fb, rs)))
-			if loopSkipsWithout(g, rs, search, nil) {
+			if loopSkipsWithout(g, rs, search, chk.NoGuard) {
 				okk, why = false, "a candidate pool can be skipped without being searched"
 			}
 			for _, rt := range g.Returns() {
